@@ -8,6 +8,10 @@ Pipeline (DESIGN.md 3.5 / 4 C13):
   3. harness bin `wire` instantiates every vector with seeded concrete values and executes it on the REAL code:
      public layers in builder order around a stub connection; real ConnectionPoolService + HttpConnectionBuilder
      + layers + RequestExecutor over an in-memory IO reporting ALPN, raw peer reading the wire.
+  3b. pooled history through the real builder: every "seq" vector (previous request version x ALPN result x request
+     vector) is run as TWO requests on a client assembled by the REAL hyperdriver::Client::builder() (in-memory transport,
+     HttpConnectionBuilder, default pool, with_tls + a real rustls peer handshake forcing the ALPN result): the second
+     request is served by the pooled connection the first one opened, whose protocol need not be the one it asks for.
   4. TLC (WireObs.tla, -continue, several instances over chunks of the record file) evaluates the C13 clauses
      on every record. Only its rejection of a record produces a VIOLATION. Differences in components the text
      does not name are DRIFT (stderr + evidence), exit 0.
@@ -15,6 +19,7 @@ Pipeline (DESIGN.md 3.5 / 4 C13):
 import glob
 import json
 import os
+import subprocess
 import time
 from concurrent.futures import ThreadPoolExecutor
 
@@ -23,6 +28,20 @@ import vlib
 SPELLINGS = {"quick": 1, "thorough": 1}
 CHUNK = 30000
 PAR = 4
+
+
+def make_cert(pid):
+    """A throw-away self-signed certificate for the raw TLS peer (the client accepts any certificate)."""
+    d = os.path.join(vlib.outdir(pid), "certs")
+    os.makedirs(d, exist_ok=True)
+    p = subprocess.run(["openssl", "req", "-x509", "-newkey", "ec", "-pkeyopt", "ec_paramgen_curve:P-256", "-nodes",
+                        "-keyout", os.path.join(d, "key.pem"), "-out", os.path.join(d, "cert.pem"), "-days", "30",
+                        "-subj", "/CN=verif C13", "-addext", "subjectAltName=DNS:example.com"],
+                       stdout=subprocess.PIPE, stderr=subprocess.STDOUT, text=True, timeout=120)
+    if p.returncode != 0 or not os.path.exists(os.path.join(d, "cert.pem")):
+        vlib.log(p.stdout[-2000:])
+        raise vlib.ToolError("openssl could not generate the test certificate")
+    return d
 
 
 def _obs_chunk(pid, path, tag):
@@ -81,10 +100,17 @@ def _key(b):
 
 def _describe(rec, b):
     c, o = rec["c"], rec["o"]
-    return ("clause %s fails (%s): %s %s HTTP/%s headers=%s on a %s connection%s -> %s target=%r Host=%r version=%s "
+    if c["mode"] in ("client1", "client2"):
+        pre = ("request #%s of a real Client::builder() client%s: " % (
+            c["mode"][-1], "" if c["mode"] == "client1" else
+            " (served by the pooled connection opened by an HTTP/%s request, reused=%s, dials=%s)" % (
+                rec["v"].get("prv"), o.get("reused"), o.get("dials"))))
+    else:
+        pre = ""
+    return pre + ("clause %s fails (%s): %s %s HTTP/%s headers=%s on a %s connection%s -> %s target=%r Host=%r version=%s "
             "left=%s proto=%s %s" % (
                 b["clause"], c["mode"], c["method"], c["uri"], c["ver"], json.dumps(c["headers"]),
-                rec["v"].get("conn", "?"), (" alpn=" + c["alpn"]) if c["alpn"] else "", o["kind"], o["target"],
+                rec["v"].get("conn", o["proto"]), (" alpn=" + c["alpn"]) if c["alpn"] else "", o["kind"], o["target"],
                 o["hosts"], o["ver"], o["hdrs"], o["proto"], o["err"]))
 
 
@@ -123,13 +149,13 @@ def run(pid, tier, seed, t0):
     if not g.finished or not gen or not os.path.exists(vpath):
         vlib.log(g.out[-3000:])
         raise vlib.ToolError("Wire_gen produced no vectors")
-    n_req, n_sel, n_e2e = [int(x) for x in gen[0].strip("<>").split(",")[1:]]
+    n_req, n_sel, n_e2e, n_seq = [int(x) for x in gen[0].strip("<>").split(",")[1:]]
     # 3. the real code
     rpath = os.path.join(d, "records.ndjson")
     k = SPELLINGS[tier]
-    out = vlib.run_harness("wire", ["gen", vpath, rpath, seed, k], timeout=1500)
+    out = vlib.run_harness("wire", ["gen", vpath, rpath, seed, k], timeout=1500, env={"C13_CERTS": make_cert(pid)})
     nrec = json.loads(out.strip().splitlines()[-1])["records"]
-    expect = (n_req + n_e2e) * k + n_sel * max(k, 8)
+    expect = (n_req + n_e2e + 2 * n_seq) * k + n_sel * max(k, 8)
     if nrec != expect:
         raise vlib.ToolError("harness executed %d of %d runs" % (nrec, expect))
     # 4. the monitor
@@ -155,25 +181,28 @@ def run(pid, tier, seed, t0):
     vlib.write_evidence(
         pid, tier, seed, "model_checking",
         {
-            "states": m.distinct, "transitions": m.generated - (n_req + n_sel),
+            "states": m.distinct, "transitions": m.generated - (n_req + n_sel + n_seq),
             "traces_validated_against_impl": nrec,
             "samples": samples,
             "evaluations": nrec,
-            "distinct_nontrivial": n_req + n_sel + n_e2e,
+            "distinct_nontrivial": n_req + n_sel + n_e2e + n_seq,
             "rule": "TLC enumerates the cross product connection version{h1,h2} x request version{1.0,1.1,2} x method{GET,POST,"
                     "CONNECT,extension} x scheme{http,https,ws,wss,other} x host{name,IPv4,[IPv6]} x port{absent,default,"
                     "other-family default,other} x path{empty,/,longer} x query{no,yes} x pre-set Host{none,same,other} x "
                     "connection-specific header subsets (%s) = %d layer-level vectors, request version x ALPN{no TLS,none,"
                     "http/1.1,h2} = %d selection vectors, and %d end-to-end runs (request vector x ALPN result selecting that "
-                    "connection version%s); every vector is executed on the real code with %d seeded spelling(s) (selection "
+                    "connection version%s), and %d pooled-history vectors (previous request version x ALPN x request vector: two "
+                    "requests through the real Client::builder() client, the second served by the pooled connection of the "
+                    "first); every vector is executed on the real code with %d seeded spelling(s) (selection "
                     "vectors %d); distinct_nontrivial counts the distinct abstract vectors executed, all of which exercise at "
                     "least one clause" % (
                         "4 subsets: none, all, two complementary halves" if tier == "quick" else "all 64 subsets",
                         n_req, n_sel, n_e2e,
                         "; quick: GET/CONNECT, http/https, no/all headers" if tier == "quick" else "; 4 header subsets",
-                        k, max(k, 8)),
+                        n_seq, k, max(k, 8)),
             "exhaustive": True,
             "layer_vectors": n_req, "selection_vectors": n_sel, "end_to_end_runs": n_e2e,
+            "pooled_history_vectors_through_real_builder": n_seq,
             "monitor_states": states,
             "tlc_coverage": {a: list(c) for a, c in cov.items()},
             "actions_never_taken": never,
@@ -187,7 +216,9 @@ def run(pid, tier, seed, t0):
          "layer-level runs use a stub Connection that reports HTTP/1.1 or HTTP/2 through the public Connection trait; "
          "the request target is what hyper's HTTP/1 encoder writes (Display of the Uri), confirmed by the end-to-end runs "
          "that read the request line from the wire",
-         "ALPN is reported through the public HasTlsConnectionInfo on an in-memory IO; no real TLS handshake",
+         "ALPN is reported through the public HasTlsConnectionInfo on an in-memory IO in the sel/e2e runs (hand-built stack in "
+         "builder order); the client1/client2 runs use the stack client/builder.rs really assembles and a real rustls "
+         "handshake with a peer offering exactly one ALPN protocol (client accepts any certificate)",
          "schemes are spelled in lower case; 'other' schemes have no default port class",
          "on HTTP/2 end-to-end runs hyper's own header stripping sits between the layers and the wire; the layer-level "
          "runs observe the layers' output directly",
@@ -197,9 +228,9 @@ def run(pid, tier, seed, t0):
         for big in (rpath, vpath):
             if os.path.exists(big):
                 os.remove(big)
-    vlib.log("[C13] %d layer vectors + %d selection vectors + %d end-to-end runs -> %d executions on the real code; "
-             "%d violating records in %d classes; %d drift; model %d states" % (
-                 n_req, n_sel, n_e2e, nrec, len(bad), len(by_key), len(diff), m.distinct))
+    vlib.log("[C13] %d layer vectors + %d selection vectors + %d end-to-end runs + %d pooled-history runs (2 requests each, "
+             "real Client::builder()) -> %d executions on the real code; %d violating records in %d classes; %d drift; "
+             "model %d states" % (n_req, n_sel, n_e2e, n_seq, nrec, len(bad), len(by_key), len(diff), m.distinct))
     return code
 
 
@@ -210,7 +241,7 @@ def replay(pid, path):
     inp = os.path.join(d, "replay-in.ndjson")
     outp = os.path.join(d, "replay-out.ndjson")
     vlib.write_ndjson(inp, recs)
-    vlib.run_harness("wire", ["rerun", inp, outp], timeout=300)
+    vlib.run_harness("wire", ["rerun", inp, outp], timeout=300, env={"C13_CERTS": make_cert(pid)})
     new = vlib.read_ndjson(outp)
     bad, _, _ = _obs(pid, outp, len(new))
     for r in new:
